@@ -48,4 +48,11 @@ def harnesses():
                      fns=["Shl<Uint>", "Shl<&Uint>", "ShlAssign<Uint>", "ShlAssign<&Uint>", "Shr<Uint>", "Shr<&Uint>",
                           "ShrAssign<Uint>", "ShrAssign<&Uint>"],
                      covers_required=(["amount-ge-2^64"] if b > 64 else [])))
+    for (b, amounts) in [(192, [64, 128, 65]), (256, [64, 192]), (250, [64, 186]), (128, [64])]:
+        l = nlimbs(b)
+        for sft in amounts:
+            out.append(H("c05_rot_const_%d_by%d" % (b, sft), "C05", "c05::rot_const::<%d,%d,%d>" % (b, l, sft),
+                         unwind=l + 2, tier="quick" if b in (192, 128) else "thorough", inst="Uint<%d,%d>" % (b, l),
+                         domain="FULL value x concrete amount %d (whole-limb / mixed) x symbolic bit position" % sft,
+                         free_bits=b + 8, fns=["rotate_left", "rotate_right"], role="c05::rot_const", timeout=600))
     return out
